@@ -1165,6 +1165,7 @@ pub fn run(ctx: &mut Ctx) {
     if let Some(case) = ctx.replay_only.clone() {
         if super::c07_enc::replay(ctx, &case) { return; }
         if super::c07_sam::replay(ctx, &case) { return; }
+        if super::c07_chunk::replay(ctx, &case) { return; }
         match case.first().map(|s| s.as_str()) {
             Some("rt") => {
                 let sub: u64 = case.get(1).and_then(|s| s.parse().ok()).unwrap_or(0);
@@ -1200,6 +1201,7 @@ pub fn run(ctx: &mut Ctx) {
     corr_fixed(ctx);
     super::c07_enc::run(ctx);
     super::c07_sam::run(ctx);
+    super::c07_chunk::run(ctx);
     let pdir = pyref_dir();
     std::fs::create_dir_all(&pdir).ok();
     for f in std::fs::read_dir(&pdir).into_iter().flatten().flatten() {
